@@ -8,3 +8,29 @@ claim("C07",
       "counterexamples are replayed concretely before being reported.",
       TB, "symbolic execution (CrossHair+z3) of Tree.reroot_*/reseed_at/... with symbolic edge lengths, exhaustive path exploration per shape",
       "DESIGN.md 3/C07")
+
+claim("C15",
+      "Bounded symbolic execution of every node/edge iterator of Tree and Node: for every ordered rooted shape up to the stated node count "
+      "(single node, unifurcations, polytomies), the start node, the iterator kind, the filter predicate (one symbolic bool per node, also as "
+      "truthy/falsy objects), the exclusion flags, the subset of apply-callbacks and the node ages are symbolic; the result is compared with "
+      "recursive reference traversals over the raw links. Exhausted path tree = holds for every predicate/start/age vector in the bound.",
+      TB, "symbolic execution (CrossHair+z3) of the real iterators with symbolic filter predicates, start nodes and ages; exhaustive path exploration per shape",
+      "DESIGN.md 3/C15")
+
+claim("C03",
+      "Inductive step by bounded symbolic execution: from every valid tree within the bound (every ordered shape incl. unifurcations, rooting, "
+      "lengths present/absent, a leaf without taxon, encoding current or absent) one public mutator (32 of them) is run with symbolic targets, "
+      "taxon subsets, flags and RNG draws; afterwards the raw links must form a single arborescence, iterators must visit exactly the reachable "
+      "nodes, the leaf-taxon multiset may change only as requested, and an updated encoding must equal a first-principles recomputation. "
+      "A second harness composes two operations. Well-formedness is the inductive invariant, so one step from an arbitrary valid state covers "
+      "histories whose intermediate trees stay inside the bound.",
+      TB, "symbolic execution (CrossHair+z3) of one/two mutators from an arbitrary valid pre-state; well-formedness invariant checked on raw links",
+      "DESIGN.md 3/C03")
+
+claim("C08",
+      "Bounded symbolic execution of the 12 pruning/retaining/extraction variants: shape per shard, kept subset as one symbolic bool per leaf, "
+      "edge lengths symbolic integers or missing (patterns incl. the seed edge), flags symbolic. Oracle from raw links of the original tree: "
+      "induced clades / unrooted splits, all surviving leaf-to-leaf path lengths (linear arithmetic decided by z3 for every length vector), "
+      "single-survivor accumulated length, unifurcation suppression, source tree unchanged and extraction_source mapping, reported removed nodes.",
+      TB, "symbolic execution (CrossHair+z3) of prune/retain/extract with symbolic subsets and edge lengths against an induced-subtree oracle",
+      "DESIGN.md 3/C08")
